@@ -71,6 +71,37 @@ class Lost(Exception):
     pass
 
 
+def norm_sha(text):
+    """sha256[:16] of the code with comments removed and whitespace collapsed: a pinned body (trusted contract reviewed
+    against it) is not disturbed by reformatting or comment edits"""
+    mask = scan_code(text)
+    out = []
+    i = 0; n = len(text)
+    while i < n:
+        c = text[i]
+        if mask[i]:
+            out.append(c)
+        elif c in '"\'' or (i > 0 and not mask[i - 1] and not text.startswith('//', i) and not text.startswith('/*', i) and out and out[-1] != '\x00'):
+            out.append(c)      # string / char literal content is kept verbatim
+        else:
+            # start of a comment: skip it entirely
+            if text.startswith('//', i):
+                j = text.find('\n', i); j = n if j < 0 else j
+                i = j; out.append(' '); continue
+            if text.startswith('/*', i):
+                depth = 1; j = i + 2
+                while j < n and depth:
+                    if text.startswith('/*', j): depth += 1; j += 2
+                    elif text.startswith('*/', j): depth -= 1; j += 2
+                    else: j += 1
+                i = j; out.append(' '); continue
+            out.append(c)
+        i += 1
+    code = re.sub(r'\s+', ' ', ''.join(out)).strip()
+    code = re.sub(r'\s*([{}()\[\];,])\s*', r'\1', code)
+    return hashlib.sha256(code.encode()).hexdigest()[:16]
+
+
 def ins(cid, props, text):
     """wrap an insertion. Per-line property tags `[C01,C02] ` at line start become trailing markers."""
     cid = re.sub(r'\s+', '_', cid).replace('*/', '*_/')   # clause ids must be one token (line_map / erase rely on it)
@@ -537,7 +568,7 @@ class Weaver:
                     if code(p): edits.append((p, p + 4, rep('this', 'self')))
             info = {'file': rel, 'qual': qual, 'disp': disp, 'props': props, 'listed': spec is not None,
                     'line': s.count('\n', 0, f['start']) + 1, 'end_line': s.count('\n', 0, f['close']) + 1,
-                    'body_sha': hashlib.sha256(body.encode()).hexdigest()[:16],
+                    'body_sha': norm_sha(body),
                     'pin': spec['pin'] if spec else None, 'cover': spec['cover'] if spec else None,
                     'auto': auto, 'trait': f['trait'], 'implicit': spec['implicit'] if spec else None}
             self.fn_info.append(info)
@@ -626,11 +657,12 @@ class Weaver:
                     ctext = s[p:cend]
                     if '/*' in ctext or '*/' in ctext:
                         self.lost.append(f"{rel}: closure \"{needle}\" in {qual}: block comment inside the closure text"); continue
-                    csha = hashlib.sha256(ctext.encode()).hexdigest()[:16]
+                    csha = norm_sha(ctext)
                     # the closure body is the one piece of the function no engine sees: the assumption about its effect
                     # (closure-glue) was reviewed against exactly this text
                     if cpin and cpin != csha:
-                        self.lost.append(f"{rel}: fn {qual}: pinned closure text changed ({csha} != {cpin})")
+                        self.soft_lost.append({'desc': f"{rel}: fn {qual}: pinned closure text changed ({csha} != {cpin}); the closure-glue assumption was reviewed against another text",
+                                               'props': sorted(set(info['props'] or props))})
                     self.rec("T15", rel, s, p, f"closure {name} sha={csha} in {qual}")
                     edits.append((p, cend, rep(call, ctext)))
                     factories.append(ins(f"{cid0}:T15[{name}]", props,
